@@ -3,12 +3,17 @@ from props_common import COMMON_TRUSTED
 CONFIG = {
     "areas": ["ctx", "auth"],
     "lean": ["VProps.C09"],
-    "sources": ["VProps/C09.lean", "VModel/Auth.lean", "VModel/Event.lean", "VModel/GoJson.lean"],
-    "theorems": ["V.C09.update_eq_freshOf", "V.C09.inv_freshOf", "V.C09.verdicts_history_independent", "V.C09.allowedFresh_eq", "V.C09.freshOf_congr"],
+    "sources": ["VProps/C09.lean", "VModel/Auth.lean", "VModel/Event.lean", "VModel/GoJson.lean", "VModel/AuthNeeded.lean",
+                "VProofs/AuthNeeded.lean", "VProofs/AuthNeededProviders.lean"],
+    "theorems": ["V.C09.update_eq_freshOf", "V.C09.inv_freshOf", "V.C09.verdicts_history_independent", "V.C09.allowedFresh_eq", "V.C09.freshOf_congr",
+                 "V.C09.verdict_needs_only_needed", "V.C09.verdict_needs_only_needed_exact", "V.C09.insertion_order_irrelevant", "V.C09.unrelated_state_irrelevant", "V.C09.unrelated_state_added", "V.C09.add_auth_events_sufficient", "V.C09.ofEvents_sameRoom"],
     "rule": "ctx: one reused allowerContext (hook) fed 3-12 steps: update to one of 1-3 providers (different create / power-levels / "
             "join-rules events, unparseable variants, missing create), AddEvent+update as state resolution does, checks of restricted "
             "joins with/without authoriser, power-level and join-rule events, messages; the spec stream is the verdict of a FRESH check "
-            "against the current provider; non-trivial = a sequence with at least two checks; auth: as C07",
+            "against the current provider; non-trivial = a sequence with at least two checks; ctx.needed: the random room states of area auth "
+            "(every event class, restricted joins, third-party invites with real signatures) with unrelated same-room state added: the REAL "
+            "Allowed on the full provider, on the reversed + extended provider and on the provider restricted to StateNeededForAuth(e).Tuples(); "
+            "spec stream = the model's verdict on the restricted provider, three times; auth: as C07",
     "nontrivial": lambda op, impl: impl.count(",") >= 1 or "\t" in op,
     "trusted": COMMON_TRUSTED + ["hook export_verif.go exposes newAllowerContext/update/allowed unchanged"],
     "assumptions": ["events are identified by their event ID in the model (pointer identity in Go); distinct generated events have distinct IDs"],
